@@ -136,6 +136,45 @@ def run(ctx):
             if dl != fresh[False][f]:
                 ctx.violation(dict(kind='result-depends-on-log-level', file=os.path.basename(f), digest_debug_logging=dl, digest_fresh_process=fresh[False][f],
                                    how='tools.digest.digest_of(file, False) inside tools.common.debug_logging() vs `python -m tools.digest lenient <file>`')); break
+        # ONE PATH, two recordings of the same byte length and the same modification time (cp -p, rsync -t, an archive unpacked twice): the second
+        # parse reports the file that is there now
+        import zlib as zlib_
+        from tools import c01 as c01_
+        vv = [x for x in ('13_2_0', wv[-1]) if x in wv][0]
+        ba, vsa = battle.build_wows(vv, random.Random(101)); bb_, vsb = battle.build_wows(vv, random.Random(202), n_players=2, join=False)
+        za = zlib_.compress(ba.stream(), 6); zb = zlib_.compress(bb_.stream(), 6)
+        L = max(len(za), len(zb)); L += (-L) % 8
+        za += bytes(L - len(za)); zb += bytes(L - len(zb))
+        same_path = os.path.join(tmp, 'same-path.wowsreplay'); ref_b = os.path.join(tmp, 'same-path-second.wowsreplay')
+        eng = json.dumps({'clientVersionFromXml': vsa}).encode()
+        c01_.model_write('wowsreplay', same_path, eng, [], struct.pack('<II', 1, L), za)
+        c01_.model_write('wowsreplay', ref_b, eng, [], struct.pack('<II', 1, L), zb)
+        d_first = digest.digest_of(same_path, False); st0 = os.stat(same_path)
+        shutil.copyfile(ref_b, same_path); os.utime(same_path, ns=(st0.st_atime_ns, st0.st_mtime_ns))
+        d_second = digest.digest_of(same_path, False)
+        want_b = fresh_digests([ref_b], False)[ref_b]
+        ctx.case(('same-path-rewritten',)); ctx.count('call:same-path-same-size-same-mtime')
+        ctx.obligation('the two recordings written to one path have the same size and differ in content', os.path.getsize(same_path) == st0.st_size and d_first != want_b, 'sizes %d / %d' % (os.path.getsize(same_path), st0.st_size))
+        if d_second != want_b:
+            ctx.violation(dict(kind='history-dependent-result', file='same-path.wowsreplay', problem='a path was parsed, then overwritten with another recording of the same byte length (modification time restored), and parsed again: the second result is not that of the file on disk',
+                               second_equals_first=(d_second == d_first), digest_in_sequence=d_second, digest_fresh_process=want_b,
+                               how='two synthetic %s battles in containers of equal length; parse path; copy the second over it; os.utime(path, old times); parse path again; compare with a fresh-process parse of the second file' % vv))
+        # the files whose packets point past the end of their own version's tables, each parsed right AFTER a file of every other kind (newest
+        # wows, oldest wows, wot, wowp): deterministic - a table of the earlier parse that leaks into the later one makes those packets succeed
+        beyond = [x for x in pool if x.endswith('-beyond.wowsreplay')]
+        wfiles = sorted((x for x in pool if os.path.basename(x).startswith('w-') and x.endswith('.wowsreplay') and '-' not in os.path.basename(x)[2:].split('.')[0]),
+                        key=lambda x: [int(y) if y.isdigit() else 0 for y in os.path.basename(x)[2:].split('.')[0].split('_')])
+        befores = ([wfiles[-1], wfiles[0]] if wfiles else []) + [x for x in pool if os.path.basename(x).startswith('wot-') and 'unbundled' not in x][:1] + [x for x in pool if os.path.basename(x).startswith('wowp-') and 'unbundled' not in x][:1]
+        stop = False
+        for f in beyond:
+            for g in befores:
+                digest.digest_of(g, False); d = digest.digest_of(f, False)
+                ctx.case(('after', os.path.basename(g), os.path.basename(f))); ctx.count('call:beyond-own-tables-after-another-version')
+                if d != fresh[False][f]:
+                    ctx.violation(dict(kind='history-dependent-result', file=os.path.basename(f), parsed_right_after=os.path.basename(g), strict=False, digest_in_sequence=d, digest_fresh_process=fresh[False][f],
+                                       how='in one interpreter: tools.digest.digest_of(<parsed_right_after>, False); tools.digest.digest_of(<file>, False); compare with `python -m tools.digest lenient <file>` (the file holds packets that point past the end of its own version\'s entity / method / property tables)'))
+                    stop = True; break
+            if stop: break
         ncalls = 120 if q else 2500
         bad = None; seq = []
         for i in range(ncalls):
